@@ -4,7 +4,8 @@
 From Sekai Require Import Base.Prelude Base.Dec Model.Filters Model.Fees.
 
 Record tx_obs : Type := mkObs {
-  o_class : Z;                                (* 0 delivered ok | 1 rejected by admission | 2 a message failed | 3 panic *)
+  o_class : Z;                                (* 0 delivered ok | 1 rejected by admission | 2 a message failed |
+                                                 3 panic, nothing admitted | 4 panic in a message after admission *)
   o_deltas : list ((string * string) * Z);    (* non-zero balance changes of the watched accounts *)
   o_accts : list (string * (Z * bool));       (* signers afterwards: sequence, has public key *)
   o_execs : list (string * string * bool);    (* execution-status list afterwards *)
@@ -32,7 +33,7 @@ Definition pairs (ws ds : list string) : list (string * string) := flat_map (fun
 
 (* ---------------------------------------------------------------- (2) model vs observation *)
 Definition class_of (r : tx_result) : Z :=
-  match r with TxOk => 0 | TxAnteRejected => 1 | TxMsgFailed => 2 | TxAntePanic => 3 end.
+  match r with TxOk => 0 | TxAnteRejected => 1 | TxMsgFailed => 2 | TxAntePanic => 3 | TxMsgPanic => 4 end.
 Definition deltas_match (s s' : st) (ws ds : list string) (obs : list ((string * string) * Z)) : bool :=
   forallb (fun k => (bal s' (fst k) (snd k) - bal s (fst k) (snd k)) =? lookup_bal obs k) (pairs ws ds).
 Definition accts_match (s : st) (obs : list (string * (Z * bool))) : bool :=
@@ -40,7 +41,8 @@ Definition accts_match (s : st) (obs : list (string * (Z * bool))) : bool :=
                     | Some a => ((a_seq a =? fst (snd o)) && Bool.eqb (a_haspk a) (snd (snd o)))%bool
                     | None => false end) obs.
 Definition execs_match (s : st) (obs : list (string * string * bool)) : bool :=
-  list_eqb (fun a b => (String.eqb (fst a) (fst (fst b)) && String.eqb (snd a) (snd (fst b)) && negb (snd b))%bool) (s_exec s) obs.
+  list_eqb (fun a b : string * string * bool =>
+              (String.eqb (fst (fst a)) (fst (fst b)) && String.eqb (snd (fst a)) (snd (fst b)) && Bool.eqb (snd a) (snd b))%bool) (s_exec s) obs.
 Definition marks_match (s : st) (ms : list msg) (obs : list string) : bool :=
   forallb (fun m => match m with
                     | MOther _ _ _ k => if String.eqb k "" then true else Bool.eqb (str_in k (s_marks s)) (str_in k obs)
@@ -50,16 +52,20 @@ Definition hists_match (s : st) (ws : list string) (obs : list (string * coins))
 
 Definition init_st (accts : list (string * (Z * bool))) (bals : list ((string * string) * Z)) (hists : list (string * coins)) : st :=
   mkSt bals (map (fun a => (fst a, mkAcct (fst (snd a)) (snd (snd a)))) accts) [] hists [].
+(* the model's view of the wiring regenerated from app.go *)
+Record wiring : Type := mkWiring { w_wired : bool; w_post : bool }.
 
 Section Run.
 Variable sh : shape.
-Variable wired : bool.
+Variable w : wiring.
+Let wired := w_wired w.
+Let post := w_post w.
 
 Fixpoint txs_match (c : fcfg) (ws ds : list string) (s : st) (txs : list (tx * tx_obs)) : option st :=
   match txs with
   | [] => Some s
   | (t, o) :: r =>
-      let '(s', res) := run_tx sh wired c s t in
+      let '(s', res) := run_tx sh wired post c s t in
       if ((class_of res =? o_class o) && deltas_match s s' ws ds (o_deltas o) && accts_match s' (o_accts o)
           && execs_match s' (o_execs o) && marks_match s' (t_msgs t) (o_marks o))%bool
       then txs_match c ws ds s' r else None
@@ -79,7 +85,7 @@ Definition case_matches (k : c09_case) : bool :=
           end
       end
   | CRefund ts hist amt coll class paid hist_after =>
-      let c := mkCfg (mkFilt "ukex" (mkBW [] []) false false 1 1 [] 0) ts true 1 1 [] in
+      let c := mkCfg (mkFilt "ukex" (mkBW [] []) false false 1 1 [] 0) ts true 1 1 [] [] 0 in
       let s := mkSt (map (fun x => ((collector, fst x), snd x)) coll) [] [] [("r"%string, hist)] [] in
       match refund c s "r" amt with
       | Ok s' => ((class =? 0) && forallb (fun d => bal s' "r" d =? amt_of paid d) (denoms paid ++ denoms hist)
@@ -90,10 +96,10 @@ Definition case_matches (k : c09_case) : bool :=
   end.
 End Run.
 
-Fixpoint mismatches_from (sh : shape) (wired : bool) (n : nat) (cs : list c09_case) : list nat :=
-  match cs with [] => [] | k :: r => if case_matches sh wired k then mismatches_from sh wired (S n) r
-                                     else n :: mismatches_from sh wired (S n) r end.
-Definition c09_mismatches (sh : shape) (wired : bool) (cs : list c09_case) : list nat := mismatches_from sh wired 0 cs.
+Fixpoint mismatches_from (sh : shape) (w : wiring) (n : nat) (cs : list c09_case) : list nat :=
+  match cs with [] => [] | k :: r => if case_matches sh w k then mismatches_from sh w (S n) r
+                                     else n :: mismatches_from sh w (S n) r end.
+Definition c09_mismatches (sh : shape) (w : wiring) (cs : list c09_case) : list nat := mismatches_from sh w 0 cs.
 
 (* ---------------------------------------------------------------- (3) the property, on what the real code did *)
 (* vocabulary of the property text, spelled out here (not the model's functions) *)
@@ -117,28 +123,41 @@ Definition spec_cover (c : fcfg) (ms : list msg) : Z :=
   zsum (map (fun m => match find (fun e => String.eqb (fst e) (msg_type m)) (c_exec c) with
                       | Some (_, (e, f)) => Z.max e f | None => 0 end) ms).
 Definition first_signer (ms : list msg) : string := match ms with m :: _ => hd ""%string (msg_signers m) | [] => ""%string end.
-Definition all_signers (ms : list msg) : list string := flat_map msg_signers ms.
+(* who pays: the explicit fee payer if the transaction names one, else the first signer *)
+Definition spec_payer (t : tx) : string := if String.eqb (t_payer t) "" then first_signer (t_msgs t) else t_payer t.
+Definition all_signers (t : tx) : list string := flat_map msg_signers (t_msgs t) ++ [t_payer t].
 
 (* expected balance change of (account, denom): fee out of the payer into the collector, and --
    only when every message succeeded -- the transfers the messages ask for *)
-Definition sent_by (m : msg) : list (string * coins) :=
+Definition sent_by (nat : string) (m : msg) : list (string * coins) :=
   match m with
   | MSend f _ a => [(f, a)] | MCustody f _ a _ => [(f, a)] | MMulti f inp _ => [(f, inp)] | MOther _ _ _ _ => []
+  | MEth f _ v => [(f, [(nat, v)])]
+  end.
+(* a custody send of an account with custodians is parked in the custody pool, not executed *)
+Definition parked (c : fcfg) (m : msg) : bool :=
+  match m with
+  | MCustody f _ _ _ => match find (fun e => String.eqb (fst e) f) (c_custody c) with
+                        | Some (_, k) => (cu_enabled k && match cu_custodians k with Some n => 0 <? n | None => false end)%bool
+                        | None => false end
+  | _ => false
   end.
 Definition sum_for (l : list (string * coins)) (a d : string) : Z :=
   zsum (map (fun x => if String.eqb (fst x) a then amt_of (snd x) d else 0) l).
-Definition expected_delta (fee : coins) (ms : list msg) (with_msgs : bool) (a d : string) : Z :=
-  (if String.eqb a (first_signer ms) then - amt_of fee d else 0)
-  + (if String.eqb a collector then amt_of fee d else 0)
-  + (if with_msgs then sum_for (flat_map transfers ms) a d - sum_for (flat_map sent_by ms) a d else 0).
+Definition expected_delta (c : fcfg) (t : tx) (with_msgs : bool) (a d : string) : Z :=
+  let nat := f_native (c_filt c) in
+  let ms := filter (fun m => negb (parked c m)) (t_msgs t) in
+  (if String.eqb a (spec_payer t) then - amt_of (t_fee t) d else 0)
+  + (if String.eqb a collector then amt_of (t_fee t) d else 0)
+  + (if with_msgs then sum_for (flat_map (transfers nat) ms) a d - sum_for (flat_map (sent_by nat) ms) a d else 0).
 
 (* the admission bookkeeping that may persist for a transaction whose messages failed *)
-Definition admission_key (ms : list msg) (k : string * string * string) : bool :=
+Definition admission_key (t : tx) (k : string * string * string) : bool :=
   let '(kind, who, _) := k in
-  ((String.eqb kind "bal" && (String.eqb who (first_signer ms) || String.eqb who collector))
-   || (String.eqb kind "acct" && str_in who (all_signers ms))
+  ((String.eqb kind "bal" && (String.eqb who (spec_payer t) || String.eqb who collector))
+   || (String.eqb kind "acct" && str_in who (all_signers t))
    || String.eqb kind "exec"
-   || (String.eqb kind "hist" && String.eqb who (first_signer ms))
+   || (String.eqb kind "hist" && String.eqb who (spec_payer t))
    || String.eqb kind "custody_limit")%bool.
 
 Definition flag (b : bool) (name : string) : list string := if b then [] else [name].
@@ -147,18 +166,18 @@ Definition types_of (ms : list msg) : string := String.concat "," (map msg_type 
 Definition tx_clauses (c : fcfg) (ws ds : list string) (prev : list (string * (Z * bool))) (t : tx) (o : tx_obs) : list string :=
   let ms := t_msgs t in
   let fee := t_fee t in
-  if ((o_class o =? 0) || (o_class o =? 2))%bool then
+  if ((o_class o =? 0) || (o_class o =? 2) || (o_class o =? 4))%bool then
     let v := spec_value c fee in
     let cover := spec_cover c ms in
     flag (forallb (spec_coin_ok c) fee) "fee_denom"
     ++ flag ((c_min_fee c * PREC <=? v) && (v <=? c_max_fee c * PREC)) "fee_range"
     ++ flag (cover * PREC <=? v) (if two63 <=? cover then "fee_cover:execution-fee-sum>=2^63" else "fee_cover")
-    ++ flag (forallb (fun k => lookup_bal (o_deltas o) k =? expected_delta fee ms (o_class o =? 0) (fst k) (snd k)) (pairs ws ds))
+    ++ flag (forallb (fun k => lookup_bal (o_deltas o) k =? expected_delta c t (o_class o =? 0) (fst k) (snd k)) (pairs ws ds))
             (String.append (if o_class o =? 0 then "charge:delivered:" else "charge:failed:") (types_of ms))
     ++ flag (forallb (fun a => match lookup_str prev (fst a) with
                                | Some (q, _) => ((fst (snd a) =? q + 1) && snd (snd a))%bool
                                | None => false end) (o_accts o)) "sequence"
-    ++ (if o_class o =? 2 then flag (forallb (admission_key ms) (o_diff o)) (String.append "trace:failed-message:" (types_of ms)) else [])
+    ++ (if o_class o =? 0 then [] else flag (forallb (admission_key t) (o_diff o)) (String.append "trace:failed-message:" (types_of ms)))
   else
     flag (is_nil (o_deltas o) && is_nil (o_diff o))%bool "trace:rejected-tx".
 
@@ -170,7 +189,7 @@ Fixpoint block_clauses (c : fcfg) (ws ds : list string) (prev : list (string * (
   | [] => ([], paid)
   | (t, o) :: r =>
       let cl := tx_clauses c ws ds prev t o in
-      let paid' := if ((o_class o =? 0) || (o_class o =? 2))%bool then (first_signer (t_msgs t), spec_value c (t_fee t)) :: paid else paid in
+      let paid' := if ((o_class o =? 0) || (o_class o =? 2) || (o_class o =? 4))%bool then (spec_payer t, spec_value c (t_fee t)) :: paid else paid in
       let '(rest, p) := block_clauses c ws ds (upd_accts prev (o_accts o)) r paid' in
       (cl ++ rest, p)
   end.
